@@ -265,7 +265,7 @@ func check(id, tier string) int {
 			continue
 		}
 		out, _, _ := runEngine(b.bin, 5*time.Minute, "-wsim.trace", filepath.Join(verifDir, k.Replay), "-wsim.sites", filepath.Join(b.dir, "sites.json"))
-		if strings.Contains(out, "REPLAY-VIOLATION") {
+		if strings.Contains(out, "REPLAY-VIOLATION") && (k.Oracle == "" || strings.Contains(out, "oracle="+k.Oracle+":")) {
 			knownLines = append(knownLines, fmt.Sprintf("KNOWN-FINDING: property=%s %s", id, k.What))
 		}
 	}
